@@ -302,6 +302,29 @@ pub fn run(ctx: &Ctx) -> Outcome {
         })
     });
     out.absorb_all(rs);
+    // every day notation as start and as end of a rule, queried at both ends of the year range (year arithmetic next to the i32 limits)
+    {
+        use crate::model::{MDay, MLtt, MRule, MTrailer, MZone, N_NOTATIONS};
+        let rs = par_shards(N_NOTATIONS as u64, |shard, st| {
+            let a = MDay::from_index(shard as usize);
+            for (start, end) in [(a, MDay::J1(200)), (MDay::J1(100), a)] {
+                for (so, doff, stt, et) in [(0, 3600, 7200, 7200), (-89_999, 93_599, -604_799, 604_799), (93_599, -89_999, 604_799, -604_799)] {
+                    let rule = MRule { std: MLtt::new(so, false, Some("STD")), dst: MLtt::new(doff, true, Some("DST")), start, start_time: stt, end, end_time: et };
+                    let z = MZone { trans: vec![], types: vec![rule.std.clone(), rule.dst.clone()], leaps: vec![], trailer: MTrailer::Alt(rule) };
+                    check_enum("zone", &z, st, |z, st| {
+                        st.eval(1);
+                        st.nontrivial_exact(1);
+                        exercise_model_zone(z)
+                    })?;
+                }
+            }
+            Ok(())
+        });
+        out.absorb_all(rs);
+        if out.failure.is_some() {
+            return out;
+        }
+    }
     // merge libFuzzer statistics written by checks/C07.sh
     if let Ok(text) = std::fs::read_to_string(crate::run::verif_dir().join("build/c07-fuzzstats.json")) {
         if let Ok(v) = serde_json::from_str::<Value>(&text) {
